@@ -13,17 +13,17 @@ CHECKS = {
 CHECKS.update({
  'C01': dict(engine='mirsym', technique='symbolic execution of the rustc MIR of every Dual operator impl (symbolic variable names and real values), z3 validity query per path against the calculus rules; counterexamples replayed natively',
    category='model_checking', design_ref='DESIGN.md §3.1',
-   text='For EVERY operator impl body of Dual that the compiler emitted (all auto_ops owned/borrowed/f64-left/right variants of + - * /, neg, pow with symbolic and concrete exponents, exp, log, norm_cdf, inv_norm_cdf, abs) z3 proves on every feasible path that value = plain formula and that the derivative per variable NAME equals the chain-rule value, for operands with 0..2 (quick) / 0..3 (thorough) variables whose names are symbolic (so every overlap, order, subset and Arc sharing is covered) and whose contents are arbitrary reals in the differentiable domain; plus result well-formedness (vars = union, no duplicates, matching shapes) and no division by zero inside the domain. Arbitrary expression trees follow by structural induction over this one-operator step (paper argument).',
+   text='For EVERY operator impl body of Dual that the compiler emitted (all auto_ops owned/borrowed/f64-left/right variants of + - * /, neg, pow with symbolic and concrete exponents, exp, log, norm_cdf, inv_norm_cdf, abs) z3 proves on every feasible path that value = plain formula and that the derivative per variable NAME equals the chain-rule value, for operands with 0..2 (quick) / 0..3 (thorough) variables whose names are symbolic (so every overlap, order, subset and Arc sharing is covered) and whose contents are arbitrary reals in the differentiable domain; plus result well-formedness (vars = union, no duplicates, matching shapes) and no division by zero inside the domain. Arbitrary expression trees follow by structural induction over this one-operator step (paper argument); as a cross-check every expression tree of depth <= 2 over + - * / neg exp log pow (quick; thorough adds every 8th tree of depth 3) is executed through the operator bodies and compared with an independent jet arithmetic.',
    note='Decided over the reals: IEEE rounding/NaN/inf are outside the claim. Trusted: mirsym library models (listed in evidence), uninterpreted transcendentals with listed axioms. Bound: <=2/<=3 variables per operand.'),
  'C02': dict(engine='mirsym', technique='symbolic execution of the rustc MIR of every Dual2 operator impl, z3 validity query per path against first- and second-order chain rules (half-Hessian storage); native replay',
    category='model_checking', design_ref='DESIGN.md §3.2',
-   text='Same as C01 for every Dual2 operator impl: value, gradient per name, and Hessian per pair of names equal to the second-order chain rule f_a H_a + f_b H_b + f_aa g_a g_a^T + f_ab(g_a g_b^T + g_b g_a^T) + f_bb g_b g_b^T under the representation invariant (dual2 symmetric = half the Hessian), symmetry of the result, for 0..2 / 0..3 symbolic names per operand.',
+   text='Same as C01 for every Dual2 operator impl: value, gradient per name, and Hessian per pair of names equal to the second-order chain rule f_a H_a + f_b H_b + f_aa g_a g_a^T + f_ab(g_a g_b^T + g_b g_a^T) + f_bb g_b g_b^T under the representation invariant (dual2 symmetric = half the Hessian), symmetry of the result, for 0..2 / 0..3 symbolic names per operand; the same expression-tree cross-check as C01 at second order; and the gradient read-back obligations of C17 for Dual2 (so that a Hessian that is stored right but read back in the wrong order is a C02 alarm as well).',
    note='As C01. The Hessian read-back by name (gradient2) and Dual::from(Dual2) are checked under C17/C18.'),
 })
 CHECKS.update({
  'C03': dict(engine='mirsym', technique='symbolic execution of the MIR of the &T op &T operator bodies and == with symbolic variable names; relational (two-run) validity query per path: a re-layout of an operand gives a name-equivalent result; native replay',
    category='model_checking', design_ref='DESIGN.md §3.3',
-   text='For + - * % and == on Dual and Dual2, z3 proves on every feasible path that replacing operand a by ANY re-layout a\' (symbolic name list of length 0..2/0..3: other order, extra names with zero derivative, dropped zero-derivative names, variable list shared with b or not; constrained only to have the same value and the same derivative per name) yields a result that is equal per name, equal under the crate\'s own ==, carries exactly the union of names once each with matching array shapes, that a\'==a, and that a==b holds exactly when values and all per-name derivatives agree (missing name = zero).',
+   text='For + - * % and == on Dual and Dual2, z3 proves on every feasible path that replacing operand a by ANY re-layout a\' (symbolic name list of length 0..2/0..3: other order, extra names with zero derivative, dropped zero-derivative names, variable list shared with b or not; constrained only to have the same value and the same derivative per name) yields a result that is equal per name, equal under the crate\'s own ==, carries exactly the union of names once each with matching array shapes, that a\'==a, and that a==b holds exactly when values and all per-name derivatives agree (missing name = zero). The shared re-layout helper Vars::to_new_vars is additionally proved on its own for stored and target lists of up to 5 (quick) / 6 (thorough) symbolic names (Dual2 one less): result carries exactly the target list and every derivative / second derivative is kept by NAME. Float-exactness (soft clause): == must be decided on stored values, not on re-associated sums; an alarm needs a natively reproduced witness.',
    note='Reals instead of floats; list lengths <=2 quick / <=3 thorough (<=2 for Dual2); division is covered by C01/C02 clauses (vars = union, shapes).'),
 })
 CHECKS.update({
@@ -37,10 +37,10 @@ CHECKS.update({
    category='model_checking', design_ref='DESIGN.md §3.18',
    text='The conversion tables are finite and covered completely: set_order and set_order_clone for 3 source kinds x 3 target orders (value kept; raising a float attaches exactly the requested names, duplicates removed, unit sensitivity, zero Hessian; raising first to second order adds a zero Hessian; lowering drops only higher-order terms), every From impl in from.rs, and every operator body of the generic Number container (+ - * / %, ==, partial_cmp, neg, pow, exp, log, norm_cdf, inv_norm_cdf, abs, sum, zero, one) for all nine kind pairings: the result equals the same operator on the contained values and the two first/second-order pairings end in a panic on every path. Contents are symbolic (names and reals).',
    note='Contained numbers carry 0..1 (quick) / 0..2 (thorough) symbolic names. Reals instead of floats. The contained operators themselves are C01/C02/C19.'),
- 'C19': dict(engine='mirsym', technique='symbolic execution of the MIR of every partial_cmp / rem / abs impl and of Sum, Zero, One for Dual and Dual2; z3 validity query per path; native replay',
+ 'C19': dict(engine='mirsym', technique='symbolic execution of the MIR of every partial_cmp / rem / abs impl and of Sum, Zero, One for Dual and Dual2, z3 validity query per path; plus bounded model checking (Kani/CBMC) of the ordering impls in IEEE-754 semantics over all pairs of 64-bit patterns; native replay',
    category='model_checking', design_ref='DESIGN.md §3.19',
-   text='z3 proves on every path: partial_cmp of every dual/dual, dual/float and float/dual impl is the ordering of the values whatever the derivative data; abs negates value and every first/second derivative exactly when the value is negative; every % impl (all owned/borrowed/float-left/right variants) returns a - trunc(a/b) b in value and per-name derivatives for divisors of either sign; Sum over 0..3/0..4 terms equals the per-name sum; zero()/one() are neutral for + and * by name; is_zero <=> value and all derivatives zero.',
-   note='Decided over the reals: NaN => None is outside the claim. <=2/<=3 names per operand.'),
+   text='z3 proves on every path: partial_cmp of every dual/dual, dual/float and float/dual impl is the ordering of the values whatever the derivative data; abs negates value and every first/second derivative exactly when the value is negative; every % impl (all owned/borrowed/float-left/right variants) returns a - trunc(a/b) b in value and per-name derivatives for divisors of either sign; Sum over 0..3/0..4 terms equals the per-name sum; zero()/one() are neutral for + and * by name; is_zero <=> value and all derivatives zero. CBMC decides that partial_cmp and < <= > >= on Dual, Dual2 and Number agree with the float operators for EVERY pair of 64-bit patterns.',
+   note='M part decided over the reals. K part (ordering): bit-precise, every pair of f64 bit patterns incl. NaN (=> None), signed zeros, infinities, for Dual/Dual, Dual/float, float/Dual, Dual2 likewise and all permitted Number pairings, on numbers without variables; std::hash::RandomState::new stubbed with a fixed key. <=2/<=3 names per operand for the M part.'),
 })
 CHECKS.update({
  'C07': dict(engine='tables', technique='SMT (z3) decision, per calendar year with a symbolic day, that the holiday table obtained by symbolically executing get_calendar_by_name from the current MIR equals the published rules translated from the <name>_script.py files (independent civil arithmetic and Gregorian computus); fixings files likewise; witnesses replayed natively',
@@ -77,31 +77,31 @@ CHECKS.update({
 CHECKS.update({
  'C09': dict(engine='mirsym', technique='symbolic execution of the MIR of FXRates::try_new / create_fx_array / mut_arrays_remaining_elements (recursive) with symbolic positive rates on every canonical quote-list structure; exact fraction arithmetic; z3 validity query per structure against the tree path-product oracle; native replay',
    category='model_checking', design_ref='DESIGN.md §3.9',
-   text='For EVERY quote-list structure with 1..3 (quick) / 1..4 (thorough) quotes - every choice of quoted pairs, orientation, quote order and base, canonical up to renaming currencies - and symbolic positive rates: a spanning tree with consistent settlement is accepted and all n*n rates equal the product of quotes (inverted where travelled backwards) along the unique path, the diagonal is 1, quoted pairs are returned structurally unchanged, currencies are ordered base-first; every other structure (under/over-specified, cyclic, repeated or inverse pair, base outside the quotes, inconsistent settlement) ends in Err - never Ok, never an abort or non-termination.',
-   note='Structures are enumerated (finite discrete space); the solver quantifies over rates. <=4 quotes (5 currencies); exact arithmetic.'),
+   text='For EVERY quote-list structure with 1..3 (quick) / 1..4 (thorough) quotes - every choice of quoted pairs, orientation, quote order and base, canonical up to renaming currencies - and symbolic positive rates: a spanning tree with consistent settlement is accepted and all n*n rates equal the product of quotes (inverted where travelled backwards) along the unique path, the diagonal is 1, quoted pairs are returned structurally unchanged, currencies are ordered base-first; every other structure (under/over-specified, cyclic, repeated or inverse pair, base outside the quotes, inconsistent settlement) ends in Err - never Ok, never an abort or non-termination. Beyond 4 quotes, representative large markets (chain, star, pseudo-random tree; thorough also star-on-last and caterpillar) over 6, 9, 12 (quick) / 6..13 (thorough) currencies are run the same way, with integer overflow of the edge counters treated as an abort. Float-exactness (soft clause): a quoted value must reach the matrix without any floating-point operation; an alarm needs a natively reproduced witness.',
+   note='Structures are enumerated (finite discrete space); the solver quantifies over rates. Complete enumeration only up to 4 quotes (5 currencies); the large markets are single representatives per shape and size. Exact arithmetic.'),
  'C10': dict(engine='mirsym', technique='same encoding as C09 run through operation histories (set_ad_order, update, rejected update) with symbolic old/new rates; after every step the whole matrix is compared by z3 with the closed form of the latest quotes incl. first/second sensitivities by variable name; native replay',
    category='model_checking', design_ref='DESIGN.md §3.10',
-   text='For every spanning-tree structure with 1..2 (quick) / 1..3 (thorough) quotes and every operation sequence of length <=2 (<=3): after construction and after each step every cross rate equals the path product of the LATEST quotes, its sensitivity to quote k is reported under fx_<pair> (a dual-valued quote keeps its own variable) and equals +-cross/q_k on the path and 0 off it, second order s_i s_j cross/(q_i q_j) resp. s_i(s_i-1)cross/q_i^2, switching order never changes a value, updates naming an unknown pair are refused and leave the state unchanged.',
+   text='For every spanning-tree structure with 1..3 quotes (3 quotes: five histories in the quick tier, all in the thorough tier) and every operation sequence of length <=2 (<=3) over set_ad_order, update, update of an unknown pair, update with a settlement date the rest of the market does not have: after construction and after each step every cross rate equals the path product of the LATEST quotes, its sensitivity to quote k is reported under fx_<pair> (a dual-valued quote keeps its own variable) and equals +-cross/q_k on the path and 0 off it, second order s_i s_j cross/(q_i q_j) resp. s_i(s_i-1)cross/q_i^2, switching order never changes a value, refused updates (unknown pair; inconsistent settlement date) leave the state unchanged, also as seen by every LATER step (a refused quote never goes live).',
    note='Each step is compared with the closed form of the latest quotes (the inductive invariant), so longer histories follow step by step; explicit histories are bounded.'),
 })
 CHECKS.update({
  'C11': dict(engine='kani+mirsym', technique='Kani/CBMC harnesses for index_left over every strictly increasing i64 list of a given length; symbolic execution of the MIR of CurveDF::try_new and the five interpolators with symbolic node dates/values/query date, z3 validity per path against a declarative adjacent-pair oracle; native replay',
    category='model_checking', design_ref='DESIGN.md §3.11',
-   text='Interval selection: for EVERY strictly increasing list of 2..6 (quick) / 2..9 (thorough) 64-bit keys and every query value the selected interval is the one whose right end is the first key >= x, clamped (CBMC, bit-precise). Formulas: for 2..3 / 2..4 nodes with symbolic distinct dates (all supply orders through the real sort), symbolic positive values and a symbolic query date before/at/between/after the nodes, each of the five rules returns its closed form on the adjacent pair selected by that rule (log-type rules compared in log space as exact rational identities), the node value at a node (1 at the first node for the zero-rate rule), linear results lie between the node values.',
-   note='Reals; ln/exp uninterpreted with exp(ln y)=y on node values; dates at midnight; >4 nodes only through the index logic.'),
- 'C12': dict(engine='mirsym', technique='symbolic execution of the MIR of set_ad_order / interpolated_value / index_value / nodes_into_order with symbolic nodes and query, through switch sequences; z3 validity per path of gradient/Hessian-by-name against the derivatives of the closed form; native replay with finite differences',
+   text='Interval selection: for EVERY strictly increasing list of 2..6 (quick) / 2..9 (thorough) 64-bit keys and every query value the selected interval is the one whose right end is the first key >= x, clamped (CBMC, bit-precise). Formulas: for 2..4 / 2..5 nodes with symbolic distinct dates (all supply orders through the real sort), symbolic positive values and a symbolic query date before/at/between/after the nodes, each of the five rules returns its closed form on the adjacent pair selected by that rule (log-type rules compared in log space as exact rational identities), the node value at a node (1 at the first node for the zero-rate rule), linear results lie between the node values.',
+   note='Reals; ln/exp uninterpreted with exp(ln y)=y on node values; dates at midnight; >5 nodes only through the index logic. Interval guards are settled against the integer part of the path condition; polynomial identities are discharged by normal form (z3, then exact expansion in sympy) before the solver is asked.'),
+ 'C12': dict(engine='mirsym', technique='symbolic execution of the MIR of set_ad_order / interpolated_value / index_value / nodes_into_order with symbolic nodes and query, through switch sequences; z3 validity per path of gradient/Hessian-by-name against the derivatives of the closed form; native replay against finite differences of the closed form evaluated independently',
    category='model_checking', design_ref='DESIGN.md §3.12',
-   text='For every rule, 2 (quick) / 2..3 nodes with symbolic dates and values and a symbolic query date: every sequence of order switches (length <=2 / <=3) keeps every looked-up value; after raising float nodes the node at sorted position i carries exactly the tag <id>i with unit sensitivity (also through nodes_into_order on unsorted supply); the gradient and Hessian of a looked-up value, read by variable name, equal the first and second derivatives of the closed form w.r.t. the two active node values and are zero elsewhere; nodes that already are Dual/Dual2 (one shared user variable or separate ones, symbolic sensitivities) keep their names through 1<->2 switches and obey the chain rule; index value = base/value, 0 before the first node, Err without base.',
+   text='For every rule, 2..3 (quick) / 2..4 nodes with symbolic dates and values and a symbolic query date: every sequence of order switches (length <=2 / <=3) keeps every looked-up value; after raising float nodes the node at sorted position i carries exactly the tag <id>i with unit sensitivity (also through nodes_into_order on unsorted supply); the gradient and Hessian of a looked-up value, read by variable name, equal the first and second derivatives of the closed form w.r.t. the two active node values and are zero elsewhere; nodes that already are Dual/Dual2 (one shared user variable or separate ones, symbolic sensitivities) keep their names through 1<->2 switches and obey the chain rule; index value = base/value, 0 before the first node, Err without base.',
    note='Reals; uses the C01/C02 operator bodies (interpreted again).'),
 })
 CHECKS.update({
  'C14': dict(engine='mirsym', technique='symbolic execution of the MIR of bsplev_single_f64 / bspldnev_single_f64 (recursive) with a symbolic evaluation point on concrete knot families (plus symbolic knots a<b<c in thorough); z3 validity per path against exact reference polynomial pieces; native replay',
    category='model_checking', design_ref='DESIGN.md §3.14',
-   text='For orders k = 1..4 (quick) / 1..5 and knot vectors with k-fold ends and none/one/two/non-uniform/repeated interior knots, with the evaluation point SYMBOLIC over the whole domain (every span, interior knot and both end points reached through the path forks): every basis function is non-negative, vanishes outside its k spans, all sum to one, and the value returned for derivative order m = 0..k equals the m-th derivative of the Cox-de Boor polynomial of the active span (right-hand span; left-hand one at the right end point), zero for m >= k. Reference pieces are computed independently in exact rational arithmetic.',
-   note='Reals. Knot values are concrete families (symbolic x); fully symbolic knot vectors and k=6 are outside.'),
+   text='For orders k = 1..5 (quick) / 1..6 and knot vectors with k-fold ends and none/one/two/non-uniform/repeated interior knots, with the evaluation point SYMBOLIC over the whole domain (every span, interior knot and both end points reached through the path forks): every basis function is non-negative, vanishes outside its k spans, all sum to one, and the value returned for derivative order m = 0..k equals the m-th derivative of the Cox-de Boor polynomial of the active span (right-hand span; left-hand one at the right end point), zero for m >= k. Reference pieces are computed independently in exact rational arithmetic.',
+   note='Reals. Knot values are concrete families (symbolic x); fully symbolic knot vectors and k>6 are outside.'),
  'C15': dict(engine='mirsym', technique='symbolic execution of the MIR of PPSpline::new/csolve/bsplmatrix/ppdnev_single(_dual/_dual2)/mapped_value (with the fdsolve and B-spline bodies underneath) on concrete layouts with symbolic data, polynomial coefficients and evaluation point; z3 validity per path; native replay',
    category='model_checking', design_ref='DESIGN.md §3.15',
-   text='On each layout (k=2..4, 3-6 sites, uneven sites, natural-spline layout with repeated end sites and second-derivative end conditions; more in thorough): the solved spline meets every datum (value at interior sites, requested derivative at the end sites) for symbolic data; for data taken from a polynomial of degree < k with symbolic coefficients the spline and ALL its derivatives equal the polynomial at a symbolic x; with Dual/Dual2 data the sensitivity to datum j equals the spline of unit data e_j and there is no second-order term; a Dual/Dual2 abscissa returns s, s\'(x)g, s\'\'(x)g^2 + 2 s\'(x)h; the 3x3 spline-type x abscissa-type table incl. the two refusing pairs; site-count mismatches and evaluation before solving give Err (no abort).',
+   text='On each layout (k=2..4, 3-6 sites, uneven sites, natural-spline layout with repeated end sites and second-derivative end conditions; more in thorough): the solved spline meets every datum (value at interior sites, requested derivative at the end sites) for symbolic data; for data taken from a polynomial of degree < k with symbolic coefficients the spline and ALL its derivatives equal the polynomial at a symbolic x; with Dual/Dual2 data the sensitivity to datum j equals the spline of unit data e_j and there is no second-order term; a Dual/Dual2 abscissa carrying TWO variables (symbolic first-order coefficients g, symbolic symmetric second-order block h) returns s, s\'(x)g_a, s\'\'(x)g_a g_b + 2 s\'(x)h_ab by name; the 3x3 spline-type x abscissa-type table incl. the two refusing pairs; site-count mismatches and evaluation before solving give Err (no abort).',
    note='Concrete knots/sites (symbolic ones are outside); reals.'),
 })
 CHECKS.update({
